@@ -883,6 +883,44 @@ def relative_patterns_part(h):
                 os.environ[k] = v
 
 
+def nested_list_part(h):
+    """E7: a list-typed key whose items are lists (List[List[int]]): `key+` appends items to the list built so far and leaves the items already there
+    as they are, from the command line, a config string and a config file, after defaults / a default assignment."""
+    from jsonargparse import ArgumentParser
+
+    with tempfile.TemporaryDirectory(prefix="b04_ll_") as tmp:
+        def argv_of_item(kind, v):
+            if kind == "opt+":
+                return "--ll+=" + json.dumps(v)
+            if kind == "opt=":
+                return "--ll=" + json.dumps(v)
+            if kind == "cfgstr+":
+                return "--cfg=" + json.dumps({"ll+": v})
+            path = os.path.join(tmp, "c%d.json" % abs(hash(json.dumps(v))))
+            with open(path, "w") as f:
+                json.dump({"ll+": v}, f)
+            return "--cfg=" + path
+        atoms = [("opt+", [[3]]), ("opt+", [[4], [5, 6]]), ("opt=", [[7]]), ("cfgstr+", [[8]]), ("cfgfile+", [[9, 9]])]
+        for n in (1, 2, 3):
+            for seq in itertools.product(atoms, repeat=n):
+                want = [[1, 2]]
+                for kind, v in seq:
+                    want = list(v) if kind == "opt=" else want + list(v)
+                try:
+                    with quiet():
+                        p = ArgumentParser(exit_on_error=False)
+                        p.add_argument("--cfg", action="config")
+                        p.add_argument("--ll", type=List[List[int]], default=[[1, 2]])
+                        got = p.parse_args([argv_of_item(k, v) for k, v in seq]).ll
+                except BaseException as ex:  # noqa
+                    got = "raised %s: %s" % (type(ex).__name__, str(ex)[:120])
+                sig = "c04:list-of-lists:" + ",".join(k for k, _ in seq)
+                first_bad = next((i for i, (a, b) in enumerate(zip(got, want)) if a != b), None) if isinstance(got, list) else None
+                h.check(got == want, sig + (":raised" if isinstance(got, str) else ":an-item-already-in-the-list-changed" if first_bad is not None and first_bad < len(want) - len(seq[-1][1]) else ":wrong-items"),
+                        "ll: expected %r, got %r" % (want, got), {"parser": "--ll: List[List[int]] = [[1, 2]]; --cfg", "argv": [k + " " + json.dumps(v) for k, v in seq]})
+                h.nontrivial(sig)
+
+
 def main():
     h = Harness("b04_precedence", rule="one evaluation = one parse of one chain of sources compared, key by key, with the reference fold; "
                 "distinct non-trivial = distinct (method, env mode, prefix, chain descriptor) with at least one source besides the defaults")
@@ -904,13 +942,14 @@ def main():
     else:
         collect(h, map(run_chunk, chunks))
     relative_patterns_part(h)
+    nested_list_part(h)
     if h.thorough:
         bound = ("0-3 default config files in %d layouts (direct paths, a glob whose listing order differs from the sorted order, a missing file, an empty file, ~, a '?' glob "
                  "with a non-matching file) x 3-5 contents per file; env config {none, string, file} x 3 contents (+1 without appends); env variables {none, 2 sets, each "
                  "key alone}; every sequence of <= 6 command line items over the atoms of one focus key (option, '+' scalar, '+' list, dict item, config file, config "
                  "string; first 4 atoms at lengths 5-6) on an empty and a full pre-chain; parse_args, parse_string, parse_path, parse_object, parse_env (os.environ / "
                  "dict); default_env off / on / JSONARGPARSE_DEFAULT_ENV / env=True / env=False; env_prefix 'APP' / False / from prog; + 40000 seeded random chains; + 3 relative patterns x 3 places of the input config x "
-                 "decoy beside it x 5 methods"
+                 "decoy beside it x 5 methods; + every sequence of <= 3 items over 5 atoms on a List[List[int]] key"
                  % len(layouts(True)))
     else:
         bound = ("0-3 default config files in 6 layouts (direct paths, a glob - before and after a direct path - whose listing order differs from the sorted order, a missing "
@@ -918,7 +957,7 @@ def main():
                  "command line items over the 4-7 atoms of one focus key (option, '+' scalar, '+' list, dict item, config file, config string; <= 4 items over 4 atoms for "
                  "the flat list key) on an empty pre-chain and <= 2 items on a full one; parse_string / parse_object / parse_path / parse_env (os.environ / dict) on <= 3 / "
                  "2 / 1 / 3 files; default_env off / on / JSONARGPARSE_DEFAULT_ENV / env=True / env=False; env_prefix 'APP' / False / from prog; "
-                 "+ 3 relative patterns x 3 places of the input config x decoy beside it x 5 methods")
+                 "+ 3 relative patterns x 3 places of the input config x decoy beside it x 5 methods; + every sequence of <= 3 items over 5 atoms on a List[List[int]] key")
     sys.exit(h.finish(exhaustive=True, bound=bound))
 
 
